@@ -192,6 +192,14 @@ def optimize_partition_by(
     return partition_by
 
 
+def materialize_tip(kwargs: dict) -> dict:
+    """Stores a one-shot iterable (generator, iterator) given as ``tip``,
+    so that every record of a multi-record operation sees all of its elements."""
+    if isinstance(kwargs.get("tip"), collections.abc.Iterator):
+        kwargs = dict(kwargs, tip=tuple(kwargs["tip"]))
+    return kwargs
+
+
 def partition_volume(volume: float, *, max_volume: Union[int, float]) -> List[float]:
     """Partitions a pipetting volume into zero or more integer-valued volumes that are <= max_volume.
 
